@@ -533,6 +533,15 @@ func GenChunkOrder(t *rapid.T, lay []TrackLayout) [][2]int {
 }
 
 // GenProgLayout draws a complete progressive layout for the tracks.
+// GenEmptyChunkAt draws (one time out of four) a placement outside the mdat for the chunks without bytes.
+// Opt-in: GenProgLayout makes no draw for it, so that the draw sequence of its other users (the deterministic
+// seed pool among them) does not change.
+func GenEmptyChunkAt(t *rapid.T, lay *ProgLayout) {
+	if rapid.IntRange(0, 3).Draw(t, "emptyChunkElsewhere") == 0 {
+		lay.EmptyChunkAt = rapid.IntRange(1, 4).Draw(t, "emptyChunkAt")
+	}
+}
+
 func GenProgLayout(t *rapid.T, tracks []Track) ProgLayout {
 	lay := ProgLayout{}
 	for _, tr := range tracks {
